@@ -152,9 +152,25 @@ def bech32_dec(hrp, s):
 
 # ------------------------------------------------------------------ scrypt / AES (C13, C20)
 
+import functools
+
+
+@functools.lru_cache(maxsize=4096)
+def _scrypt(pw, salt, n, r, p, dklen):
+    return hashlib.scrypt(pw, salt=salt, n=n, r=r, p=p, dklen=dklen, maxmem=512 * 1024 * 1024)
+
+
 def scrypt(pw, salt, n, r, p, dklen):
-    pw = _txt(pw).encode("utf-8") if isinstance(pw, T) else _b(pw)
-    return hashlib.scrypt(pw, salt=_b(salt), n=n, r=r, p=p, dklen=dklen, maxmem=256 * 1024 * 1024)
+    """memoised: the model and the direct checks ask for the same derivations"""
+    return _scrypt(_b(pw), _b(salt), n, r, p, dklen)
+
+
+def utf8_encode(t):
+    """[exception code (0 ok, 8 UnicodeError), bytes]"""
+    try:
+        return [0, _txt(t).encode("utf-8")]
+    except UnicodeEncodeError:
+        return [8, b""]
 
 
 def aes256_ecb_enc(key, block):
@@ -167,7 +183,52 @@ def aes256_ecb_dec(key, block):
     return AES.new(_b(key), AES.MODE_ECB).decrypt(_b(block))
 
 
+# ------------------------------------------------------------------ secp256k1 points as [] / [x, y] (C13, C20)
+
+def _pt(P):
+    return None if not P else (P[0], P[1])
+
+
+def secp_ser_c(P):
+    return K1.ser_c(_pt(P)) if P else b""
+
+
+def secp_ser_u(P):
+    return K1.ser_u(_pt(P)) if P else b""
+
+
+def secp_deser(b):
+    P = K1.deser(_b(b))
+    return [] if P is None else [P[0], P[1]]
+
+
+B58 = "123456789ABCDEFGHJKLMNPQRSTUVWXYZabcdefghijkmnopqrstuvwxyz"
+
+
+def b58check(b):
+    b = b + hashlib.sha256(hashlib.sha256(b).digest()).digest()[:4]
+    n = int.from_bytes(b, "big")
+    s = ""
+    while n:
+        n, r = divmod(n, 58)
+        s = B58[r] + s
+    return "1" * (len(b) - len(b.lstrip(b"\0"))) + s
+
+
+def hash160(b):
+    from Crypto.Hash import RIPEMD160
+    return RIPEMD160.new(hashlib.sha256(b).digest()).digest()
+
+
+def p2pkh_btc(P, compressed):
+    """Bitcoin main-net P2PKH address (version byte 0x00) of a point, as text"""
+    ser = K1.ser_c(_pt(P)) if compressed else K1.ser_u(_pt(P))
+    return T(b58check(b"\x00" + hash160(ser)))
+
+
 ORACLES = {
+    "utf8_encode": utf8_encode, "secp_ser_c": secp_ser_c, "secp_ser_u": secp_ser_u, "secp_deser": secp_deser,
+    "p2pkh_btc": p2pkh_btc,
     "c05_priv_ok": priv_ok, "c05_pub_parse": pub_parse, "c05_pub_of_priv": pub_of_priv,
     "bech32_enc": bech32_enc, "bech32_dec": bech32_dec,
     "scrypt": scrypt, "aes256_ecb_enc": aes256_ecb_enc, "aes256_ecb_dec": aes256_ecb_dec,
